@@ -23,6 +23,7 @@ const (
 )
 
 var (
+	ErrInputAlreadyFinalized             = fmt.Errorf("input is already finalized")
 	ErrInputIndexOutOfRange              = fmt.Errorf("provided input index is out of range")
 	ErrOutputIndexOutOfRange             = fmt.Errorf("provided output index is out of range")
 	ErrInvalidSignatureForInput          = fmt.Errorf("signature does not correspond to this input")
@@ -364,6 +365,9 @@ func (u *Updater) AddInIssuance(inputIndex int, arg AddInIssuanceArgs) error {
 	if err := u.validateInputIndexForIssuance(inputIndex); err != nil {
 		return err
 	}
+	if isFinalized(u.Pset, inputIndex) {
+		return ErrInputAlreadyFinalized
+	}
 
 	p := u.Pset.Copy()
 	input := p.Inputs[inputIndex]
@@ -510,6 +514,9 @@ func (u *Updater) AddInReissuance(inputIndex int, arg AddInReissuanceArgs) error
 
 	if err := arg.validate(); err != nil {
 		return err
+	}
+	if isFinalized(u.Pset, inputIndex) {
+		return ErrInputAlreadyFinalized
 	}
 
 	p := u.Pset.Copy()
